@@ -245,7 +245,7 @@ def register(PROPS):
                 "scenarios (faulty, Finite and Valid replayers, ID-mode-violating publishes): every published message is "
                 "compared with its state before Publish; plus long histories (op N: ONE message put 257..8232 times, thorough "
                 "up to 65576, through a Finite/ValidReplayer with automatic IDs): every publication's ID, the caller's message "
-                "afterwards, replays aimed at the end",
+                "afterwards, replays aimed at the end; plus session cases (SESS: Send/Flush sequences with faults, the same message value sent again, the message compared before and after every Send)",
         "hist": hist_c19_all,
         "assumptions": ["append's growth policy is arbitrary (any capacity >= needed): the theorems quantify over it, "
                         "the model run uses one fixed policy",
